@@ -18,6 +18,10 @@ use std::sync::{Arc, Mutex};
 #[derive(Clone, Copy, Debug, PartialEq)]
 pub enum Act {
     Resize { pt: PT, geo: usize, alg: Alg, alpha: bool, frac: bool },
+    /// alpha-aware resize of a "sprite": opaque shapes on a fully transparent-black background
+    /// (long runs of all-zero pixels, aligned to the vector width) — stale scratch content under
+    /// those runs must not leak
+    Sprite { pt: PT, geo: usize, alg: Alg },
     /// invalid crop box
     BadCrop { pt: PT },
     /// source and destination of different pixel types
@@ -121,6 +125,15 @@ pub fn alphabet(tier: Tier, sub: bool) -> Vec<Act> {
         let _ = tier;
     }
     v.extend(ladder_actions());
+    if !sub {
+        // every alpha pixel type: an opaque/noisy alpha-aware call and a sprite of the same geometry
+        for &pt in ALPHA_PT.iter() {
+            for g in [3usize, 4] {
+                v.push(Act::Resize { pt, geo: g, alg: Alg::Conv(F::Bilinear), alpha: true, frac: false });
+                v.push(Act::Sprite { pt, geo: g, alg: Alg::Conv(F::Bilinear) });
+            }
+        }
+    }
     v.push(Act::BadCrop { pt: PT::U8x4 });
     v.push(Act::BadCrop { pt: PT::F32 });
     v.push(Act::Mismatch);
@@ -157,6 +170,18 @@ fn exec(rz: &mut Resizer, act: Act, key: u64) -> (String, Vec<u8>) {
                 o.cx = Some(Crop1 { start: 0.5, len: sw as f64 - 1.25 });
                 o.cy = Some(Crop1 { start: 0.25, len: sh as f64 - 0.5 });
             }
+            let mut dst = Raw::filled(pt, dw, dh, 0x5A);
+            let r = resize_into(rz, &src, &mut dst, &o);
+            (format!("{:?}", r), dst.bytes().to_vec())
+        }
+        Act::Sprite { pt, geo, alg } => {
+            let ((sw, sh), (dw, dh)) = GEOS[geo];
+            let noisy = source(pt, sw, sh, key);
+            // transparent black everywhere except a few opaque blocks; zero runs of >= 8 pixels
+            // starting at multiples of 8 (and whole zero rows)
+            let src = Raw::from_fn(pt, sw, sh, |x, y, c| if (x / 8 + y / 3) % 2 == 0 || y % 5 == 4 { 0.0 } else { noisy.get(x, y, c) });
+            let mut o = Opts::new(alg);
+            o.alpha = true;
             let mut dst = Raw::filled(pt, dw, dh, 0x5A);
             let r = resize_into(rz, &src, &mut dst, &o);
             (format!("{:?}", r), dst.bytes().to_vec())
@@ -305,6 +330,7 @@ pub fn rebuild(acts: &[Act], path: &[u16]) -> Option<(Resizer, BE)> {
 fn act_class(a: Act) -> String {
     match a {
         Act::Resize { pt, alg, alpha, .. } => format!("resize {:?} {} alpha={}", pt, crate::props::c01::alg_class(alg), alpha),
+        Act::Sprite { pt, alg, .. } => format!("resize sprite {:?} {} alpha=true", pt, crate::props::c01::alg_class(alg)),
         o => format!("{:?}", o),
     }
 }
